@@ -328,6 +328,13 @@ HeaderProtection_remove(HeaderProtectionObject *self, PyObject *args)
     if (!PyArg_ParseTuple(args, "y#I", &packet, &packet_len, &pn_offset))
         return NULL;
 
+    if (pn_offset < 0 ||
+        pn_offset > PACKET_LENGTH_MAX - PACKET_NUMBER_LENGTH_MAX ||
+        pn_offset + PACKET_NUMBER_LENGTH_MAX + SAMPLE_LENGTH > packet_len) {
+        PyErr_SetString(CryptoError, "Invalid packet length");
+        return NULL;
+    }
+
     res = HeaderProtection_mask(self, packet + pn_offset + PACKET_NUMBER_LENGTH_MAX);
     CHECK_RESULT(res != 0);
 
